@@ -141,3 +141,75 @@ func c20localOnly(addr ssa.Value) bool {
 	}
 	return false
 }
+
+// capturedLen: the length of the value a closure reads from a captured variable before it writes the variable
+// itself: the length the variable has at the places where the closure is called (`for len(s) > 0 { typ, val := next() }`
+// with `next := func() ... { typ, n := lex(s); ...; s = s[n:] ... }` - the loop condition of the caller holds for the
+// first read of s inside next). The closure is only called directly (never used as a value), in the function that
+// makes it; at every call a read of the variable dominates the call with nothing in between that could write it.
+func (p *c20prover) capturedLen(ld *ssa.UnOp, fv *ssa.FreeVar, seen map[ssa.Value]bool) (c20iv, bool) {
+	fn := ld.Parent()
+	if fn == nil || fn.Parent() == nil || !p.onlyStatic(fn) {
+		return c20iv{}, false
+	}
+	idx := -1
+	for k, x := range fn.FreeVars {
+		if x == fv {
+			idx = k
+		}
+	}
+	sites := p.sites[fn]
+	if idx < 0 || len(sites) == 0 {
+		return c20iv{}, false
+	}
+	// nothing in the closure writes the variable on a path to this read
+	clobbered := false
+	eachInstr(fn, func(i ssa.Instruction) {
+		if !clobbered && i != ssa.Instruction(ld) && c20mayWrite(i, fv, ld.Type(), 0) && pathAvoiding(i, ld, nil) {
+			clobbered = true
+		}
+	})
+	if clobbered {
+		return c20iv{}, false
+	}
+	r := c20empty
+	for _, s := range sites {
+		call, isCall := s.(*ssa.Call)
+		if !isCall || call.Parent() != fn.Parent() {
+			return c20iv{}, false // deferred, started as a goroutine, or called from somewhere else
+		}
+		mc, isMC := call.Call.Value.(*ssa.MakeClosure)
+		if !isMC || idx >= len(mc.Bindings) {
+			return c20iv{}, false
+		}
+		cell := mc.Bindings[idx]
+		var read *ssa.UnOp
+		eachInstr(call.Parent(), func(i ssa.Instruction) {
+			u, ok := i.(*ssa.UnOp)
+			if !ok || u.Op != token.MUL || u.X != cell || !dominatesInstr(u, call) {
+				return
+			}
+			isU := func(j ssa.Instruction) bool { return j == ssa.Instruction(u) }
+			written := false
+			eachInstr(call.Parent(), func(j ssa.Instruction) {
+				if written || j == ssa.Instruction(call) || j == ssa.Instruction(u) || !c20mayWrite(j, cell, u.Type(), 0) {
+					return
+				}
+				if pathAvoiding(u, j, nil) && pathAvoiding(j, call, isU) {
+					written = true
+				}
+			})
+			if !written {
+				read = u
+			}
+		})
+		if read == nil {
+			return c20iv{}, false
+		}
+		r = r.union(p.lenOf(read, call.Block(), seen))
+	}
+	if r.empty() {
+		return c20iv{}, false
+	}
+	return r, true
+}
